@@ -56,6 +56,12 @@ func verif_InternalListener_Accept(l *InternalListener) {
 // PutConn: success means the connection is queued or (queue full) closed; a
 // closed listener is reported to the caller, who then closes the connection.
 //
+// PutConn is called with the server-wide visitor table's lock held
+// (server/visitor Manager.NewConn): it never blocks - the hand-over is a select
+// with a default branch (C16 "no input or interleaving wedges frps").
+//
+//verif:noblock (*~/pkg/util/net.InternalListener).PutConn props=C16,C11
+
 //verif:contract (*~/pkg/util/net.InternalListener).PutConn
 //verif:props C11 C08
 func verif_InternalListener_PutConn(l *InternalListener, conn net.Conn) {
